@@ -50,6 +50,7 @@ class Spec:
         self.planning = None  # list of planning variables
         self.interp = {}  # name -> interpolation mode
         self.dynpar = []  # names of dynamic parameters
+        self.delays = []  # (path expression, delayed variable name, duration): y = delay(expr, tau)
         self.__dict__.update(kw)
 
 
@@ -214,6 +215,9 @@ def syn_class(mixins=()):
         @property
         def extra_variables(self):
             return self._ev
+
+        def delayed_feedback(self):
+            return [(path_mx(self, e), out, float(tau)) for e, out, tau in self.s.delays]
 
         def dynamic_parameters(self):
             return [self._sym[n] for n in self.s.dynpar]
